@@ -894,4 +894,64 @@ func runC12(r *ev.Run) {
 		r.Count("graphs", 1)
 		r.Eval(len(m.live) > 2*M+1, ev.Digest("graph", metric, params, len(hist), ci))
 	})
+	// Stream 'soak': ONE small index (never more than three resident vectors, M=32, ef=64: far inside the exact regime)
+	// lives through tens of thousands of operations — the hundred-thousandth operation on an index is held to the same
+	// answer as the first. One cycle: Add(B), Remove(A) (the entry point, left pending), Add(C), search (exactly {B, C}),
+	// Remove(B), Flush. The cases differ in how many searches precede the cycles, so that whatever a long-lived index
+	// counts per traversal (generation stamps, pooled scratch state) meets every operation of the cycle in every phase.
+	r.CasesParallel("soak", 3, 3, func(ci int, rng *rand.Rand) {
+		const dim = 2
+		metric := []comet.DistanceKind{comet.L2Squared, comet.Euclidean, comet.Cosine}[ci%3]
+		idx, err := comet.NewHNSWIndex(dim, metric, 32, 64, 64)
+		if err != nil {
+			r.ViolationAt("soak", ci, "hnsw.constructor", err.Error(), nil)
+			return
+		}
+		vec := func() []float32 { return []float32{float32(rng.NormFloat64()) + 3, float32(rng.NormFloat64()) + 3} }
+		next := uint32(1)
+		add := func() (uint32, bool) {
+			id := next
+			next++
+			if err := idx.Add(*comet.NewVectorNodeWithID(id, vec())); err != nil {
+				r.ViolationAt("soak", ci, "hnsw.add-error", fmt.Sprintf("operation #%d: Add(%d): %v", next, id, err), nil)
+				return id, false
+			}
+			return id, true
+		}
+		a, ok := add()
+		if !ok {
+			return
+		}
+		q := vec()
+		for i := 0; i < ci; i++ {
+			idx.NewSearch().WithQuery(cloneF32(q)).WithK(0).Execute()
+		}
+		cycles := r.Pick(50000, 150000)
+		for c := 0; c < cycles; c++ {
+			b, ok1 := add()
+			errA := idx.Remove(*comet.NewVectorNodeWithID(a, nil))
+			cc, ok2 := add()
+			if !ok1 || !ok2 {
+				return
+			}
+			res, err := idx.NewSearch().WithQuery(cloneF32(q)).WithK(0).Execute()
+			got := vecToSet(res)
+			if err != nil || errA != nil || len(res) != 2 || !got[b] || !got[cc] {
+				r.ViolationAt("soak", ci, "hnsw.exact.missing-live-id", fmt.Sprintf("hnsw %s M=32 ef=64, cycle %d (about %d operations on this index): after Add(%d), Remove(%d) -> %v, Add(%d) a complete search returned %v (err %v), the live vectors are [%d %d]", metric, c, 6*c, b, a, errA, cc, sortedKeys(got), err, b, cc), nil)
+				return
+			}
+			if err := idx.Remove(*comet.NewVectorNodeWithID(b, nil)); err != nil {
+				r.ViolationAt("soak", ci, "hnsw.remove-error", fmt.Sprintf("cycle %d: Remove(%d) of a live vector: %v", c, b, err), nil)
+				return
+			}
+			if err := idx.Flush(); err != nil {
+				r.ViolationAt("soak", ci, "hnsw.flush-error", err.Error(), nil)
+				return
+			}
+			a = cc
+		}
+		r.Count("soak:cycles", int64(cycles))
+		r.Count("soak:operations-on-one-index", int64(6*cycles))
+		r.Eval(true, ev.Digest("soak", ci, cycles))
+	})
 }
